@@ -399,6 +399,7 @@ tzm_add_mn(const char *mn, size_t mz, znoff_t off)
 
 
 static unsigned int exst_only_p;
+static unsigned int unsorted_p;
 static unsigned int zn_overflow_p;
 static const char *check_fn;
 
@@ -462,6 +463,18 @@ Warning: zone `%.*s' skipped: not present in global zone database",
 	} else if (znp == -1U) {
 		/* brilliant, can't add anything */
 		return NUL_ZNOFF;
+	}
+	{
+		static char last[257U];
+
+		if (strcmp(last, ln) >= 0) {
+			/* look-ups bisect, keys must come in ascending order */
+			error("\
+Error: key `%s' out of order (after `%s')", ln, last);
+			unsorted_p = 1U;
+			return NUL_ZNOFF;
+		}
+		memcpy(last, ln, lp - ln);
 	}
 	tzm_add_mn(ln, lp - ln - 1U, znp);
 	return znp;
@@ -682,6 +695,9 @@ cmd_cc(const struct yuck_cmd_cc_s argi[static 1U])
 
 	if (parse_file(argi->args[0U]) < 0) {
 		error("cannot read file `%s'", *argi->args ?: "stdin");
+		rc = 1;
+		goto out;
+	} else if (unsorted_p) {
 		rc = 1;
 		goto out;
 	} else if (zn_overflow_p) {
